@@ -30,7 +30,7 @@ func sub(m map[string]string, ss ...string) []string {
 }
 
 func propC09(c *Ctx) {
-	c.Explanation = "Decides, for all inputs and schedules, the structural mechanisms behind 'exactly the addressed socket or nobody': (D1) findEndpointLocked is loop-free and its complete path table is the four-step most-specific match of the property - keys (LocalPort,LocalAddress,RemotePort,RemoteAddress) = full id, id without local address, id without remote part, local port only, in that order, returning at the first hit; (D2) deliverPacket hands the packet to exactly the endpoint found and reports true only then; NIC.DeliverTransportPacket builds the id from the parsed ports and the route addresses and tries NIC demuxer, stack demuxer, default handler, unknown-destination handler each only when all previous ones declined; registerEndpoint rolls back exactly the protocols it registered; singleRegisterEndpoint rejects duplicates and inserts in the same critical section; (D3) DeliverNetworkPacket passes a packet to a network endpoint only when getRef found the destination address on this NIC, and getRef creates a temporary endpoint only under promiscuous mode or an owning subnet; forwarding only when enabled; (D4) endpoints/NIC/Stack tables are accessed only under their mutexes (lockset); (D5) Subnet.Contains and Route.Match return true only after every byte matched under the mask. D7 also pairs every tryIncRef of the module with a release, hand-over or return on every path on which it succeeded. (D8) the isRegistered flag follows registration and inline unregistration at once (shared with C03/H9); D7 also tables the reference counter itself (decRef removes at zero, tryIncRef never revives zero). (D9) the echo request's route reference is released on every way out (shared with C13/I1,I2); D6 also decides udp Connect's local port. NOT decided: that the maps contain what a history of register/close calls implies; reference counting."
+	c.Explanation = "Decides, for all inputs and schedules, the structural mechanisms behind 'exactly the addressed socket or nobody': (D1) findEndpointLocked is loop-free and its complete path table is the four-step most-specific match of the property - keys (LocalPort,LocalAddress,RemotePort,RemoteAddress) = full id, id without local address, id without remote part, local port only, in that order, returning at the first hit; (D2) deliverPacket hands the packet to exactly the endpoint found and reports true only then; NIC.DeliverTransportPacket builds the id from the parsed ports and the route addresses and tries NIC demuxer, stack demuxer, default handler, unknown-destination handler each only when all previous ones declined; registerEndpoint rolls back exactly the protocols it registered; singleRegisterEndpoint rejects duplicates and inserts in the same critical section; (D3) DeliverNetworkPacket passes a packet to a network endpoint only when getRef found the destination address on this NIC, and getRef creates a temporary endpoint only under promiscuous mode or an owning subnet; forwarding only when enabled; (D4) endpoints/NIC/Stack tables are accessed only under their mutexes (lockset); (D5) Subnet.Contains and Route.Match return true only after every byte matched under the mask. D7 also pairs every tryIncRef of the module with a release, hand-over or return on every path on which it succeeded. (D8) the isRegistered flag follows registration and inline unregistration at once (shared with C03/H9); D7 also tables the reference counter itself (decRef removes at zero, tryIncRef never revives zero). (D9) the echo request's route reference is released on every way out (shared with C13/I1,I2); D6 also decides udp Connect's local port. (D10) a new address entry holds exactly the insertion reference and is published under its endpoint id, temporary entries do not keep it, a cloned route takes one reference; (D11) what udp Connect records and Close gives up; (D12) TCP teardown gives up the route reference once and drains the accept queue, an active open registers under the identity of the route found; (D13) registration fails with ErrPortInUse exactly when the id is taken and stops at the first failing network. (D14) package stack narrows no port, NIC id or protocol number. NOT decided: that the maps contain what a history of register/close calls implies; reference counting."
 	c.Assumptions = []string{"map lookups with equal keys observed inside one critical section return the same value"}
 
 	// D4 lockset
@@ -38,6 +38,13 @@ func propC09(c *Ctx) {
 	c.Locks().CheckGuards(c, d4, guardsDemux, nil)
 
 	// D1 lookup order
+	nicAddressRule(c, c.Rule("D10", "K7 exact-guard site tables", "a new address entry holds exactly the insertion reference and is published under its endpoint id; temporary entries do not keep it; a cloned route takes one reference", 9))
+	udpConnectStateRule(c, c.Rule("D11", "K7 site tables (shared with C11/U15)", "what udp Connect records (peer port, route clone, registration NIC, receive side open) and what Close gives up", 10))
+	d12 := c.Rule("D12", "K7 site tables (shared with C03/H16)", "TCP teardown gives up the route reference once and drains the accept queue; an active open registers under the identity of the route found", 10)
+	tcpTeardownRule(c, d12)
+	tcpConnectIdentityRule(c, d12)
+	demuxRegisterReturnsRule(c, c.Rule("D13", "K7 closed return tables", "registration fails with ErrPortInUse exactly when the id is taken, and stops at the first failing network", 5))
+	c.NoNewNarrowing(c.Rule("D14", "K8 narrowing (closed world, reviewed table)", "package stack narrows no port, NIC id or protocol number", 2), []string{"/net-protocol/stack"}, nil)
 	d1 := c.Rule("D1", "K9 path table (flow-sensitive struct values)", "four-step most-specific match", 4)
 	if fn := c.Fn(d1, "(*stack.transportDemuxer).findEndpointLocked"); fn != nil {
 		ps, es := WalkPaths(fn, 64)
@@ -112,42 +119,7 @@ func propC09(c *Ctx) {
 			c.Check(ok, d2, FuncName(fn)+"/unknown-after-default-declined", c.pos(ci), "reached only when no default handler exists or it declined", "unknown-destination handler can run although the default handler accepted the packet")
 		}
 	}
-	if fn := c.Fn(d2, "(*stack.transportDemuxer).registerEndpoint"); fn != nil {
-		m := map[string]string{"I": "(1 + phi{-1 | loop})", "REG": "(*stack.transportDemuxer).singleRegisterEndpoint($0, $1[{I}], $2, $3, $4)"}
-		c.CheckSites(d2, fn, []SiteSpec{
-			{Kind: "call", Target: "(*stack.transportDemuxer).singleRegisterEndpoint", Args: sub(m, "$0", "$1[{I}]", "$2", "$3", "$4"), N: 1, Why: "register under each requested network protocol"},
-			{Kind: "call", Target: "(*stack.transportDemuxer).unregisterEndpoint", Args: sub(m, "$0", "$1[:{I}]", "$2", "$3"), Guards: sub(m, "!({REG} == nil)"), N: 1, Why: "roll back exactly the protocols registered so far (netProtos[:i]) - never an entry owned by someone else"},
-		})
-	}
-	if fn := c.Fn(d2, "(*stack.transportDemuxer).singleRegisterEndpoint"); fn != nil {
-		m := map[string]string{"EPS": "$0.protocol[stack.protocolIDs{network: $1, transport: $2}]"}
-		c.CheckSites(d2, fn, []SiteSpec{
-			{Kind: "mapupdate", Target: "", Args: sub(m, "{EPS}#0.endpoints", "$3", "$4"), Guards: sub(m, "!{EPS}#0.endpoints[$3]#1"), N: 1, Why: "insert only when the id is not taken"},
-		})
-		// K4a: no unlock between the duplicate check and the insertion
-		var ins ssa.Instruction
-		Instrs(fn, func(in ssa.Instruction) {
-			if _, ok := in.(*ssa.MapUpdate); ok {
-				ins = in
-			}
-		})
-		if ins != nil {
-			unl := 0
-			Instrs(fn, func(in ssa.Instruction) {
-				if ci, ok := in.(*ssa.Call); ok {
-					if op := lockOpOf(NewTermer(fn), ci); op != nil && (op.kind == "unlock" || op.kind == "runlock") {
-						unl++
-					}
-				}
-			})
-			c.Check(unl == 0, d2, FuncName(fn)+"/check-and-insert-atomic", c.pos(ins), "no explicit unlock between duplicate check and insertion (only the deferred one)", "the lock is released between the duplicate check and the insertion")
-		}
-	}
-	if fn := c.Fn(d2, "(*stack.transportDemuxer).unregisterEndpoint"); fn != nil {
-		for _, d := range c.Calls(fn, Is("builtin:delete"), false) {
-			c.ArgIs(d2, "delete-key", d, 1, "$3")
-		}
-	}
+	demuxRegistrationRule(c, d2)
 
 	// D3 destination address admission
 	d3 := c.Rule("D3", "K1/K5 site table", "network endpoint only for an address of this NIC (or promiscuous/subnet)", 6)
@@ -349,4 +321,48 @@ func udpConnectPortRule(c *Ctx, rule string) {
 		c.Check(okTerm && okZero, rule, FuncName(fn)+"/id-local-port", c.pos(in), "the registration id carries the endpoint's bound port (0 only for an unbound endpoint)", "the id udp Connect registers under does not carry the endpoint's bound local port on every bound/connected path: value "+term+"; "+why)
 	})
 	c.Check(n == 1, rule, FuncName(fn)+"/id-built-once", c.P.Pos(fn.Pos()), "one id literal", "expected exactly one TransportEndpointID literal in Connect")
+}
+
+// demuxRegistrationRule: registration inserts only when the id is free (check
+// and insert in one critical section), a failed multi-protocol registration
+// rolls back exactly the protocols it registered (never the entry of the
+// endpoint that won the conflict), unregistration deletes by the id given.
+// Shared by C09/D2 and C03/H18.
+func demuxRegistrationRule(c *Ctx, d2 string) {
+	if fn := c.Fn(d2, "(*stack.transportDemuxer).registerEndpoint"); fn != nil {
+		m := map[string]string{"I": "(1 + phi{-1 | loop})", "REG": "(*stack.transportDemuxer).singleRegisterEndpoint($0, $1[{I}], $2, $3, $4)"}
+		c.CheckSites(d2, fn, []SiteSpec{
+			{Kind: "call", Target: "(*stack.transportDemuxer).singleRegisterEndpoint", Args: sub(m, "$0", "$1[{I}]", "$2", "$3", "$4"), N: 1, Why: "register under each requested network protocol"},
+			{Kind: "call", Target: "(*stack.transportDemuxer).unregisterEndpoint", Args: sub(m, "$0", "$1[:{I}]", "$2", "$3"), Guards: sub(m, "!({REG} == nil)"), N: 1, Why: "roll back exactly the protocols registered so far (netProtos[:i]) - never an entry owned by someone else"},
+		})
+	}
+	if fn := c.Fn(d2, "(*stack.transportDemuxer).singleRegisterEndpoint"); fn != nil {
+		m := map[string]string{"EPS": "$0.protocol[stack.protocolIDs{network: $1, transport: $2}]"}
+		c.CheckSites(d2, fn, []SiteSpec{
+			{Kind: "mapupdate", Target: "", Args: sub(m, "{EPS}#0.endpoints", "$3", "$4"), Guards: sub(m, "!{EPS}#0.endpoints[$3]#1"), N: 1, Why: "insert only when the id is not taken"},
+		})
+		// K4a: no unlock between the duplicate check and the insertion
+		var ins ssa.Instruction
+		Instrs(fn, func(in ssa.Instruction) {
+			if _, ok := in.(*ssa.MapUpdate); ok {
+				ins = in
+			}
+		})
+		if ins != nil {
+			unl := 0
+			Instrs(fn, func(in ssa.Instruction) {
+				if ci, ok := in.(*ssa.Call); ok {
+					if op := lockOpOf(NewTermer(fn), ci); op != nil && (op.kind == "unlock" || op.kind == "runlock") {
+						unl++
+					}
+				}
+			})
+			c.Check(unl == 0, d2, FuncName(fn)+"/check-and-insert-atomic", c.pos(ins), "no explicit unlock between duplicate check and insertion (only the deferred one)", "the lock is released between the duplicate check and the insertion")
+		}
+	}
+	if fn := c.Fn(d2, "(*stack.transportDemuxer).unregisterEndpoint"); fn != nil {
+		for _, d := range c.Calls(fn, Is("builtin:delete"), false) {
+			c.ArgIs(d2, "delete-key", d, 1, "$3")
+		}
+	}
 }
